@@ -32,6 +32,7 @@ const (
 	fBlockBackslash  = "C05-block-string-leading-backslash"
 	fDescLoneCR      = "C05-description-lone-cr"
 	fInputValueName  = "C05-input-value-name-unchecked"
+	fStringLineBreak = "C05-string-escaped-line-break"
 	fImplementsIdent = "C05-implements-followed-by-definition"
 )
 
@@ -210,6 +211,20 @@ func floatDanglingExponent(d *ast.Document) bool {
 	return false
 }
 
+// descWithLineBreak: a quoted (non-block) description whose content contains a line
+// terminator (only possible through the lexer's "escaped line break" in a quoted string).
+func descWithLineBreak(d *ast.Document) bool {
+	hit := false
+	forEachDescription(d, func(ds ast.Description) {
+		if ds.IsDefined && !ds.IsBlockString && ds.Content.Start <= ds.Content.End && int(ds.Content.End) <= len(d.Input.RawBytes) {
+			if bytes.ContainsAny(d.Input.RawBytes[ds.Content.Start:ds.Content.End], "\r\n") {
+				hit = true
+			}
+		}
+	})
+	return hit
+}
+
 var reAstparserName = regexp.MustCompile(`^[_A-Za-z][_0-9A-Za-z-]*$`)
 
 // inputValueNameNotAName: an argument / input field definition whose name is not an
@@ -347,6 +362,7 @@ func classifyAccepted(d *ast.Document, k string, diff string) string {
 		add(inBlock && blockBackslashInDoc(d), fBlockBackslash)
 		add(inBlock && blockTrimInDoc(d), fBlockTrim)
 		add(strings.Contains(diff, "desc") && descLoneCRInDoc(d), fDescLoneCR)
+		add(strings.Contains(diff, "desc") && descWithLineBreak(d), fStringLineBreak)
 		add(strings.Contains(diff, "float") && floatDanglingExponent(d), fFloatExpSign)
 		add(queryKeywordNeededInDoc(d), fQueryKeyword)
 		add(inputValueNameNotAName(d), fInputValueName)
@@ -535,6 +551,24 @@ func probes() pbt.Probes {
 			_, s2 := walkDoc(d2)
 			if df := diffShape(s1, s2); df != "" {
 				return fmt.Sprintf("%q prints (indented) as %q: the description value changes: %s", in, p1, df)
+			}
+			return ""
+		}},
+		fStringLineBreak: {Input: "type T { \"\\\na\" f: Int }", Fn: func() string {
+			in := "type T { \"\\\na\" f: Int }"
+			d, ok := parseStr(in)
+			if !ok {
+				return ""
+			}
+			_, s1 := walkDoc(d)
+			p1 := printOf(d, true)
+			d2, ok := parseStr(p1)
+			if !ok {
+				return fmt.Sprintf("%q is accepted and its indented print %q does not parse", in, p1)
+			}
+			_, s2 := walkDoc(d2)
+			if df := diffShape(s1, s2); df != "" {
+				return fmt.Sprintf("%q is accepted (a backslash continues the quoted string over the line break) and prints (indented) as %q: the description changes: %s", in, p1, df)
 			}
 			return ""
 		}},
